@@ -43,7 +43,8 @@ def gen_call(ctx: Ctx, M):
     chunk = rng.choice([None, None, 1, 2, T, T + 1])
     retain = True if M.nested_features() else rng.random() < 0.3
     pre = rand_pre(rng, P, P.leaves())
-    return dict(losses=M.losses, features=M.features, tasks=tasks, m_tasks=m_tasks, shared=shared,
+    gen = rng.random() < 0.2
+    return dict(gen=gen, losses=M.losses, features=M.features, tasks=tasks, m_tasks=m_tasks, shared=shared,
                 m_shared=m_shared, agg=agg, chunk=chunk, retain=retain, pre=pre)
 
 
@@ -63,7 +64,8 @@ def one(ctx: Ctx, M, call, dtypes):
             ctx.count("skipped_magnitude")
             continue
         rerr, rg, _ = real_mtl(P, dtype, call["losses"], call["features"], call["tasks"], call["shared"],
-                               call["agg"], call["chunk"], call["retain"], call["pre"], report)
+                               call["agg"], call["chunk"], call["retain"], call["pre"], report,
+                               as_generators=call["gen"])
         spec = {k: str(v) for k, v in call.items() if k != "pre"}
         changed = sum(1 for k in report if rg[k] != (None if call["pre"].get(k) is None else list(call["pre"][k])))
         ctx.case((tuple(P.describe()), sx([str(v) for v in spec.values()]), str(dtype)),
@@ -75,6 +77,7 @@ def one(ctx: Ctx, M, call, dtypes):
         ctx.count("defaults", f"shared={'None' if call['shared'] is None else 'explicit'},"
                               f"tasks={'None' if call['tasks'] is None else 'explicit'}")
         ctx.count("outcome", rerr or "ok")
+        ctx.count("params_as_one_shot_iterables", call["gen"])
         ctx.count("param_shared_by_two_tasks",
                   len({p for tp in call["m_tasks"] for p in tp}) < sum(len(tp) for tp in call["m_tasks"]))
         if rerr != merr or rg != mg:
